@@ -3,7 +3,7 @@ from .common import COMMON_TRUST
 from .fam_idset import IdsetFam
 
 PROP = Property(
-    "C19", ["HsVerif.Props.C19"], [IdsetFam()],
+    "C19", ["HsVerif.Props.C19", "HsVerif.Props.C19Gen"], [IdsetFam()],
     facts=[
         {"func": "security/crypto/bitfield.go:Bitfield.Add", "order": ["index", "extend", "set"]},
         {"func": "security/crypto/bitfield.go:Bitfield.Contains", "order": ["index", "isSet"]},
@@ -20,5 +20,5 @@ PROP = Property(
 META = {
     "text": "Proof: for the bit-field model (Add/Contains/ForEach/RangeWhile/Len/BitfieldFromBytes/Bytes as coded) Lean theorems show, for every insertion sequence over ids >= 1 without upper bound and every byte string, that membership, cached size and ascending duplicate-free iteration equal the ideal set, that reconstruction keeps the bytes and yields exactly the set bits with len = popcount, and that a reachable set rebuilt from its bytes is the original. For signer lists, Combine (ECDSA/EdDSA list version and BLS bit-field version) succeeds exactly on >= 2 pairwise disjoint inputs and its result has no repeated signer, so Len counts distinct signers. index/id are regenerated from Go and bridged. The correspondence runs crypto.Bitfield and real Sign/Combine of all three schemes against the model and an ideal-set oracle: all byte strings <= 2 bytes, all insertion sequences <= 3 over a byte-boundary alphabet, random sequences over ids 1..300, all combinations of <= 3 single signatures plus nested aggregates.",
     "note": "Trusted: Lean kernel, propext/Quot.sound/Classical.choice, gofacts, correspondence harness. Wire-decoded signer lists are not produced by Sign/Combine and are covered by C02, not here.",
-    "technique": "Lean 4 theorems (refinement of bit-field to ideal set; Nodup of combined signer lists) + translation of index/id + differential correspondence with ideal-set oracle",
+    "technique": "Lean 4 theorems (refinement of bit-field to ideal set; Nodup of combined signer lists) + translation of index/id + Go->Lean translation of the Bitfield methods with bridging theorems (Props/C19Gen) + differential correspondence with ideal-set oracle",
 }
